@@ -30,7 +30,7 @@ func main() { hx.Main("C04", run) }
 
 // An Ev is one step of a history.
 type Ev struct {
-	K   string     `json:"k"` // op | spawn | poll
+	K   string     `json:"k"` // op | spawn | poll | pool
 	Op  *mgrsim.Op `json:"op,omitempty"`
 	Sub int        `json:"sub"`
 	Max int        `json:"max,omitempty"`
@@ -40,6 +40,11 @@ type Ev struct {
 	// <= -1000: the id of tree node -(At+1000), which the store does not hold, at its height
 	At int    `json:"at,omitempty"`
 	H  uint64 `json:"h,omitempty"`
+	// pool: a pool submission between manager calls: an arbitrary-data transaction (v1 or v2, made
+	// unique by Salt), or with Bad a transaction the pool must reject
+	V2   bool `json:"v2,omitempty"`
+	Bad  bool `json:"bad,omitempty"`
+	Salt int  `json:"salt,omitempty"`
 }
 
 // A Case is a tree (regenerated from the seed) and a history.
@@ -93,6 +98,7 @@ type world struct {
 	fail     *failure
 	stats    map[string]int
 	pruned   bool
+	poolNotes int
 	snap     map[int]*chaingen.Ledger // the ledger a subscriber of this node held when it stood on block x
 	ops      []mgrsim.Op
 	f8At     int  // number of ops the expiry-order classification below was made for
@@ -102,6 +108,7 @@ type world struct {
 func newWorld(t *chaingen.Tree) *world {
 	w := &world{t: t, s: mgrsim.NewSim(t, nil), tw: subs.NewTwin(t), everBest: map[int]bool{0: true}, subs: map[int]*sub{}, stats: map[string]int{}}
 	w.s.CM.OnReorg(func(ci types.ChainIndex) { w.notes = append(w.notes, ci) })
+	w.s.CM.OnPoolChange(func() { w.poolNotes++ })
 	w.s.Observe(&w.prev)
 	w.snap = map[int]*chaingen.Ledger{}
 	w.f8At = -1
@@ -207,6 +214,60 @@ func (w *world) follow() {
 		if rec.idx == before {
 			return // stranded (pruned below it): nothing more to record
 		}
+	}
+}
+
+// doPool submits a transaction set to the pool. Reorg notifications are delivered only when the
+// tip has changed: a pool submission, accepted or not, must not invoke the OnReorg listeners.
+func (w *world) doPool(ev Ev) {
+	before, pbefore, tip := len(w.notes), w.poolNotes, w.s.CM.Tip()
+	data := []byte(fmt.Sprintf("verif c04 pool submission %d", ev.Salt))
+	var known bool
+	var err error
+	func() {
+		defer func() {
+			if r := recover(); r != nil {
+				w.report("c04-panic", "pool submission (v2=%v bad=%v) panicked: %v", ev.V2, ev.Bad, r)
+			}
+		}()
+		if ev.V2 {
+			txn := types.V2Transaction{ArbitraryData: data}
+			if ev.Bad {
+				txn.SiacoinOutputs = []types.SiacoinOutput{{Address: w.t.Env.Addr, Value: types.Siacoins(1)}} // no input pays for it
+			}
+			known, err = w.s.CM.AddV2PoolTransactions(tip, []types.V2Transaction{txn})
+		} else {
+			txn := types.Transaction{ArbitraryData: [][]byte{data}}
+			if ev.Bad {
+				var id types.SiacoinOutputID
+				copy(id[:], data)
+				txn.SiacoinInputs = []types.SiacoinInput{{ParentID: id, UnlockConditions: w.t.Env.UC}} // spends nothing that exists
+			}
+			known, err = w.s.CM.AddPoolTransactions([]types.Transaction{txn})
+		}
+	}()
+	if w.fail != nil {
+		return
+	}
+	accepted := err == nil && !known
+	delta := len(w.notes) - before
+	kind := "v1"
+	if ev.V2 {
+		kind = "v2"
+	}
+	if accepted {
+		w.stats["pool-submissions-accepted-"+kind]++
+		if w.poolNotes > pbefore {
+			w.stats["pool-listener-invocations"]++
+		}
+	} else {
+		w.stats["pool-submissions-rejected-"+kind]++
+	}
+	w.coq = append(w.coq, fmt.Sprintf("EPool %v %v", accepted, delta > 0))
+	if w.s.CM.Tip() != tip {
+		w.report("c04-pool-submission-moved-tip", "a %s pool submission moved the tip %v -> %v", kind, tip, w.s.CM.Tip())
+	} else if delta > 0 {
+		w.report("c04-notify-without-tip-change", "a %s pool submission (accepted=%v, err=%v) invoked the OnReorg listeners %d time(s) with %v although no block was added and the tip is still %v", kind, accepted, err, delta, w.notes[len(w.notes)-1], tip)
 	}
 }
 
@@ -547,6 +608,8 @@ func runCase(cs Case, t *chaingen.Tree) *world {
 			w.spawn(ev)
 		case "poll":
 			w.poll(ev.Sub, ev.Max)
+		case "pool":
+			w.doPool(ev)
 		}
 		if w.fail != nil {
 			return w
@@ -572,7 +635,7 @@ func genCase(r *rng.R, regime int, prunes bool) Case {
 	}
 	plan := mgrsim.GenPlan(rng.New(cs.Seed^0x5bd1e995), t, prunes)
 	w := newWorld(t)
-	nsub := 0
+	nsub, salt := 0, 0
 	add := func(ev Ev) {
 		cs.Evs = append(cs.Evs, ev)
 		switch ev.K {
@@ -582,6 +645,8 @@ func genCase(r *rng.R, regime int, prunes bool) Case {
 			w.spawn(ev)
 		case "poll":
 			w.poll(ev.Sub, ev.Max)
+		case "pool":
+			w.doPool(ev)
 		}
 	}
 	add(Ev{K: "spawn", Sub: nsub, At: -1})
@@ -626,6 +691,14 @@ func genCase(r *rng.R, regime int, prunes bool) Case {
 			for k := 1 + r.Intn(3); k > 0 && w.fail == nil; k-- {
 				add(Ev{K: "poll", Sub: parked, Max: []int{1, 2, 100}[r.Intn(3)]})
 			}
+			if w.fail != nil {
+				break
+			}
+		}
+		// a pool submission between the manager calls (v1 / v2, now and then one that must be rejected)
+		if r.Chance(1, 3) {
+			salt++
+			add(Ev{K: "pool", V2: r.Bool(), Bad: r.Chance(1, 4), Salt: salt})
 			if w.fail != nil {
 				break
 			}
@@ -752,6 +825,8 @@ func evString(ev Ev) string {
 		return ev.Op.String()
 	case "spawn":
 		return fmt.Sprintf("spawn(sub %d at %d)", ev.Sub, ev.At)
+	case "pool":
+		return fmt.Sprintf("pool(v2=%v bad=%v #%d)", ev.V2, ev.Bad, ev.Salt)
 	}
 	return fmt.Sprintf("poll(sub %d, max %d)", ev.Sub, ev.Max)
 }
